@@ -14,7 +14,7 @@ open Ucan Ucan.GoM Ucan.Policy
 variable {D C A : Type} [DecidableEq D]
 
 /-- the counting loop only counts: it ends normally at the end of the proof list -/
-theorem verifyArgs_loop1 (extIPLD : A → GoM Node) (g : Gen.InvTok D C) (ds : List (Gen.DlgTok D Stmt)) (a : A)
+theorem verifyArgs_loop1 (extIPLD : A → GoM Node) (g : Gen.InvTok D C A) (ds : List (Gen.DlgTok D Stmt)) (a : A)
     (hlen : ds.length = g.proof.length) (fuel k : Nat) (hf : ds.length - k < fuel) (hk : k ≤ ds.length) (count : Int) :
     ∃ c, Gen.Inv_verifyArgs.loop1 extMatch extIPLD fuel g ds a (k : Int) count = .ok (.next ((ds.length : Int), c)) := by
   induction fuel generalizing k count with
@@ -34,7 +34,7 @@ theorem verifyArgs_loop1 (extIPLD : A → GoM Node) (g : Gen.InvTok D C) (ds : L
       exact ⟨count, by simp [len, h1, bind, Except.bind, pure, Except.pure]⟩
 
 /-- the gathering loop appends the policy of every delegation from position `k` on, in order -/
-theorem verifyArgs_loop2 (extIPLD : A → GoM Node) (g : Gen.InvTok D C) (ds : List (Gen.DlgTok D Stmt)) (a : A)
+theorem verifyArgs_loop2 (extIPLD : A → GoM Node) (g : Gen.InvTok D C A) (ds : List (Gen.DlgTok D Stmt)) (a : A)
     (hlen : ds.length = g.proof.length) (fuel k : Nat) (hf : ds.length - k < fuel) (hk : k ≤ ds.length) (count : Int)
     (acc : List (Option Stmt)) :
     Gen.Inv_verifyArgs.loop2 extMatch extIPLD fuel g ds a count (k : Int) acc =
@@ -60,7 +60,7 @@ theorem verifyArgs_loop2 (extIPLD : A → GoM Node) (g : Gen.InvTok D C) (ds : L
 /-- `verifyArgs`, regenerated, is the model's `verifyArgs` (the function C03 is about): with the arguments converting to
 `args`, it returns nil exactly when the concatenation of the policies of ALL loaded delegations matches `args`. -/
 theorem Inv_verifyArgs_eq (undef : D) (pol : Gen.DlgTok D Stmt → List Stmt) (extIPLD : A → GoM Node)
-    (g : Gen.InvTok D C) (ds : List (Gen.DlgTok D Stmt)) (a : A) (args : Node)
+    (g : Gen.InvTok D C A) (ds : List (Gen.DlgTok D Stmt)) (a : A) (args : Node)
     (hlen : ds.length = g.proof.length) (hipld : extIPLD a = .ok args)
     (hpol : ∀ d ∈ ds, d.policy = (pol d).map some) :
     Gen.Inv_verifyArgs extMatch extIPLD g ds a =
@@ -84,7 +84,7 @@ theorem Inv_verifyArgs_eq (undef : D) (pol : Gen.DlgTok D Stmt → List Stmt) (e
     simp [Except.mapError, chainErr, throw, throwThe, MonadExceptOf.throw]
 
 /-- a failing conversion of the arguments is the result of `verifyArgs` (nothing is matched) -/
-theorem Inv_verifyArgs_ipld_error (extIPLD : A → GoM Node) (g : Gen.InvTok D C) (ds : List (Gen.DlgTok D Stmt)) (a : A)
+theorem Inv_verifyArgs_ipld_error (extIPLD : A → GoM Node) (g : Gen.InvTok D C A) (ds : List (Gen.DlgTok D Stmt)) (a : A)
     (e : GoErr) (hlen : ds.length = g.proof.length) (hipld : extIPLD a = .error e) :
     Gen.Inv_verifyArgs extMatch extIPLD g ds a = .error e := by
   unfold Gen.Inv_verifyArgs
